@@ -44,7 +44,7 @@ func runC20(tier string) int {
 	}
 	defer os.RemoveAll(scratch)
 	ov := overlay.New(evid.VerifDir)
-	if err := ov.Sync("/repo/generator/formatters.go", scratch); err != nil {
+	if err := ov.Sync(evid.RepoDir+"/generator/formatters.go", scratch); err != nil {
 		fmt.Fprintln(os.Stderr, "INTERNAL ERROR: instrumenting formatters.go:", err)
 		return 2
 	}
@@ -108,17 +108,17 @@ func racePass(scratch string) string {
 // /repo/cmd and instruments cmd/gomacro.go (sync, go statements); `go test` runs it in /repo
 // without writing there. Returns the path of the JSON result, or "unavailable: ...".
 func harnessBPass(ov *overlay.Overlay, scratch, tier string) string {
-	if err := ov.Sync("/repo/cmd/gomacro.go", scratch); err != nil {
+	if err := ov.Sync(evid.RepoDir+"/cmd/gomacro.go", scratch); err != nil {
 		return "unavailable: instrumenting cmd/gomacro.go: " + err.Error()
 	}
-	ov.Replace["/repo/cmd/verif_c20b_test.go"] = filepath.Join(evid.VerifDir, "mc", "overlay", "files", "verif_c20b_test.go.txt")
+	ov.Replace[evid.RepoDir+"/cmd/verif_c20b_test.go"] = filepath.Join(evid.VerifDir, "mc", "overlay", "files", "verif_c20b_test.go.txt")
 	ovPath, err := ov.Write(scratch)
 	if err != nil {
 		return "unavailable: " + err.Error()
 	}
 	out := filepath.Join(scratch, "c20b.json")
 	c := exec.Command("go", "test", "-overlay", ovPath, "-vet=off", "-count=1", "-run", "TestVerifC20B", "./cmd")
-	c.Dir = "/repo"
+	c.Dir = evid.RepoDir
 	c.Env = append(os.Environ(), "GOFLAGS=-mod=readonly", "GOPROXY=off", "GOSUMDB=off", "GOTOOLCHAIN=local", "VERIF_C20B_OUT="+out, "VERIF_TIER="+tier)
 	if b, err := c.CombinedOutput(); err != nil {
 		return "unavailable: go test of harness B failed: " + trunc(string(b), 600)
